@@ -151,6 +151,7 @@ type cfgJSON struct {
 	PalSeed  int64  `json:"palseed"`
 	K        int    `json:"k"`
 	ExecSeed int64  `json:"execseed"`
+	NoEmpty  bool   `json:"noempty,omitempty"` // the palette maps value 0 to a non-empty byte string
 }
 
 type result struct {
@@ -393,7 +394,7 @@ func (c *BehavCheck) Run() int {
 		_ = os.MkdirAll(replayDir, 0o755)
 		path := filepath.Join(replayDir, fmt.Sprintf("%s-%d-%d.json", c.ID, c.Seed, idx))
 		rf := replayFile{Property: c.ID, Seed: c.Seed, Behaviour: json.RawMessage(r.b.Raw), Violation: v, Hang: r.out.Hang, Panic: r.out.Panic, Summary: r.b.Summary(),
-			Config: cfgJSON{r.cfg.Cache, r.cfg.Flush, r.cfg.Sync, r.cfg.Backend, r.cfg.IVCall, r.cfg.Compress, r.cfg.Pal.Name, r.palSeed, c.Sim.K, r.execSeed}}
+			Config: cfgJSON{r.cfg.Cache, r.cfg.Flush, r.cfg.Sync, r.cfg.Backend, r.cfg.IVCall, r.cfg.Compress, r.cfg.Pal.Name, r.palSeed, c.Sim.K, r.execSeed, r.cfg.Pal.NoEmpty}}
 		bts, _ := json.MarshalIndent(rf, "", " ")
 		_ = os.WriteFile(path, bts, 0o644)
 		violations = append(violations, fmt.Sprintf("VIOLATION property=%s replay=%s", c.ID, path))
@@ -714,6 +715,10 @@ func (c *BehavCheck) Replay(path string) int {
 	}
 	cfg := exec.Config{Cache: rf.Config.Cache, Flush: rf.Config.Flush, Sync: rf.Config.Sync, Backend: rf.Config.Backend, IVCall: rf.Config.IVCall,
 		Compress: rf.Config.Compress, Pal: palette.New(rf.Config.Palette, rf.Config.K, rf.Config.PalSeed)}
+	// checks whose oracle cannot handle empty values (C03, C04, C16) replay with the same value mapping
+	if rf.Config.NoEmpty || c.ID == "C03" || c.ID == "C04" || c.ID == "C16" {
+		cfg.Pal.WithoutEmptyValue()
+	}
 	out, _ := c.runOne(b, cfg, rf.Config.ExecSeed)
 	switch {
 	case out.Violation != nil:
